@@ -18,6 +18,8 @@
 
 use crate::common::*;
 use coupe::sprs::{CompressedStorage, CsMatView, TriMat};
+use coupe::num_traits::{FromPrimitive, One, ToPrimitive, Zero};
+use coupe::rayon::prelude::*;
 use coupe::Topology;
 use std::collections::BTreeSet;
 use std::num::NonZeroUsize;
@@ -573,11 +575,20 @@ fn run_imb(ctx: &mut Ctx, op: &str, t: &mut Toks) {
         ctx.record(op.to_string(), "bad-op".into(), false);
         return;
     };
-    eval_imb(ctx, op, k, p, ws, ts, false);
+    eval_imb(ctx, op, k, p, ws, ts, false, vec![]);
 }
 
 /// Runs the four imbalance functions and their closed-form oracle (linear in the input).
-fn eval_imb(ctx: &mut Ctx, op: &str, k: usize, p: Vec<usize>, ws: Vec<i64>, ts: Vec<i64>, large: bool) {
+fn eval_imb(
+    ctx: &mut Ctx,
+    op: &str,
+    k: usize,
+    p: Vec<usize>,
+    ws: Vec<i64>,
+    ts: Vec<i64>,
+    large: bool,
+    extra: Vec<(&'static str, String)>,
+) {
     let set = if large { lpools() } else { pools() };
     let (loads, s1) = in_pool_set(set, || coupe::imbalance::compute_parts_load(&p, k, ws.clone()));
     let (mx, s2) = in_pool_set(set, || coupe::imbalance::max_imbalance(k, &p, ws.clone()));
@@ -596,7 +607,7 @@ fn eval_imb(ctx: &mut Ctx, op: &str, k: usize, p: Vec<usize>, ws: Vec<i64>, ts: 
         },
         show(&tgt)
     );
-    let mut v = Verdicts(vec![]);
+    let mut v = Verdicts(extra);
     if !(s1 && s2 && s3 && s4) {
         v.add("pool-dependent", "the answer depends on the rayon pool size".into());
     }
@@ -657,6 +668,16 @@ fn eval_imb(ctx: &mut Ctx, op: &str, k: usize, p: Vec<usize>, ws: Vec<i64>, ts: 
                     if !((got - exact).abs() <= tol) {
                         v.add("imbalance", format!("imbalance {} but the closed form is {}", got, exact));
                     }
+                    // the documented f64 expression, evaluated independently on the exact loads:
+                    // max_j (L_j - T/K) / (T/K) with T, L_j, K converted to f64 (round to nearest)
+                    let ideal = total as f64 / k as f64;
+                    let mut best = f64::NEG_INFINITY;
+                    for &l in &nl {
+                        best = best.max((l as f64 - ideal) / ideal);
+                    }
+                    if ideal != 0.0 && got != best {
+                        v.add("imbalance-closed-form-bits", format!("imbalance {:?} but the f64 closed form gives {:?}", got, best));
+                    }
                 }
             }
             Err(c) => v.add("imbalance", format!("imbalance {} inside the contract", c)),
@@ -714,6 +735,7 @@ fn lpart(pm: usize, k: usize, n: usize, seed: u64, i: usize) -> usize {
         1 => (i / 4096) % k,
         2 => (mix(i as u64, 1, seed) % k as u64) as usize,
         3 => i % k,
+        5 => [0usize, 1, 63, 64, 65, 127, 128, 129, 191, 192, 255, 256][(mix(i as u64, 1, seed) % 12) as usize],
         _ => (i / 8192).min(k - 1),
     }
 }
@@ -722,6 +744,7 @@ fn lweight(wm: usize, seed: u64, i: usize) -> i64 {
     match wm {
         0 => 1,
         1 => 1 + (mix(i as u64, 2, seed) % 7) as i64,
+        3 => (mix(i as u64, 2, seed) % 4) as i64, // a quarter of the weights are zero
         _ => 1 + (mix(i as u64, 3, seed) % 1_048_576) as i64,
     }
 }
@@ -741,12 +764,14 @@ fn lrow(gk: usize, s: usize, em: usize, n: usize, seed: u64, i: usize) -> Vec<(u
     if i + s < n {
         cand.push(i + s);
     }
+    // edge-weight mode 2: values 0..9, explicit zeros are stored
+    let wt = |x: u64| if em == 2 { (x % 10) as i64 } else { 1 + (x % m) as i64 };
     if gk == 0 {
-        cand.into_iter().map(|j| (j, 1 + (mix(i.min(j) as u64, i.max(j) as u64, seed) % m) as i64)).collect()
+        cand.into_iter().map(|j| (j, wt(mix(i.min(j) as u64, i.max(j) as u64, seed)))).collect()
     } else {
         cand.into_iter()
             .filter(|&j| mix(i as u64, j as u64, seed + 7) % 4 != 0)
-            .map(|j| (j, 1 + (mix(i as u64, j as u64, seed) % m) as i64))
+            .map(|j| (j, wt(mix(i as u64, j as u64, seed))))
             .collect()
     }
 }
@@ -756,6 +781,7 @@ fn limb_weight(wm: usize, n: usize, seed: u64, i: usize) -> i64 {
         0 => 1,
         1 => (mix(i as u64, 2, seed) % 100) as i64,
         2 => (1u64 << 30) as i64 + (mix(i as u64, 3, seed) % (1 << 31)) as i64,
+        4 => (mix(i as u64, 2, seed) % 4) as i64,
         _ => ((1u64 << 61) / n as u64) as i64 - (mix(i as u64, 4, seed) % 1000) as i64,
     }
 }
@@ -816,7 +842,7 @@ fn parse_nats(t: &mut Toks, k: usize) -> Option<Vec<usize>> {
     if t.done() { Some(v) } else { None }
 }
 
-fn run_lcsr(ctx: &mut Ctx, op: &str, t: &mut Toks) {
+fn run_lcsr(ctx: &mut Ctx, op: &str, t: &mut Toks, plumb: bool) {
     let Some(a) = parse_nats(t, 9) else {
         ctx.record(op.to_string(), "bad-op".into(), false);
         return;
@@ -888,14 +914,18 @@ fn run_lcsr(ctx: &mut Ctx, op: &str, t: &mut Toks) {
             v.add(sig, format!("{} {} but the definition gives {}", name, show(got), want_l));
         }
     }
-    ctx.count(&format!("large:csr:{}", size_class(n)));
+    if plumb {
+        plumb_csr(ctx, &mut v, &indptr, &indices, &data, &p, &ws, &es, &ls);
+    } else {
+        ctx.count(&format!("large:csr:{}", size_class(n)));
+    }
     let idx = ctx.record(op.to_string(), out, n >= 2 && k >= 2);
     for (sig, what) in v.0 {
         ctx.fail(idx, sig, what);
     }
 }
 
-fn run_lgrid(ctx: &mut Ctx, op: &str, t: &mut Toks, dim: usize) {
+fn run_lgrid(ctx: &mut Ctx, op: &str, t: &mut Toks, dim: usize, plumb: bool) {
     let Some(a) = parse_nats(t, if dim == 2 { 6 } else { 7 }) else {
         ctx.record(op.to_string(), "bad-op".into(), false);
         return;
@@ -1020,14 +1050,18 @@ fn run_lgrid(ctx: &mut Ctx, op: &str, t: &mut Toks, dim: usize) {
         }
         c += step;
     }
-    ctx.count(&format!("large:grid{}d:{}", dim, size_class(n)));
+    if plumb {
+        plumb_grid(ctx, &mut v, w, h, d, dim, &p, &ws, &eg, &lg);
+    } else {
+        ctx.count(&format!("large:grid{}d:{}", dim, size_class(n)));
+    }
     let idx = ctx.record(op.to_string(), out, n >= 2 && k >= 2);
     for (sig, what) in v.0 {
         ctx.fail(idx, sig, what);
     }
 }
 
-fn run_limb(ctx: &mut Ctx, op: &str, t: &mut Toks) {
+fn run_limb(ctx: &mut Ctx, op: &str, t: &mut Toks, plumb: bool) {
     let Some(a) = parse_nats(t, 5) else {
         ctx.record(op.to_string(), "bad-op".into(), false);
         return;
@@ -1041,9 +1075,18 @@ fn run_limb(ctx: &mut Ctx, op: &str, t: &mut Toks) {
     let ws: Vec<i64> = (0..n).map(|i| limb_weight(wm, n, seed, i)).collect();
     let ts: Vec<i64> = (0..k).map(|j| (mix(j as u64, 5, seed) % 1000) as i64).collect();
     let total: i128 = ws.iter().map(|&x| x as i128).sum();
-    ctx.count(&format!("large:imb:{}", size_class(n)));
-    ctx.count(if total % k as i128 == 0 { "large:imb:total_divisible" } else { "large:imb:total_not_divisible" });
-    eval_imb(ctx, op, k, p, ws, ts, true);
+    let mut extra = Verdicts(vec![]);
+    if plumb {
+        plumb_imb(ctx, &mut extra, k, &p, &ws, &ts);
+        ctx.count(if total % k as i128 == 0 { "plumbing:imb:total_divisible" } else { "plumbing:imb:total_not_divisible" });
+        if total > 1 << 53 {
+            ctx.count("plumbing:imb:total>2^53");
+        }
+    } else {
+        ctx.count(&format!("large:imb:{}", size_class(n)));
+        ctx.count(if total % k as i128 == 0 { "large:imb:total_divisible" } else { "large:imb:total_not_divisible" });
+    }
+    eval_imb(ctx, op, k, p, ws, ts, true, extra.0);
 }
 
 fn gen_large(ctx: &mut Ctx) {
@@ -1146,6 +1189,883 @@ fn gen_large(ctx: &mut Ctx) {
     ));
 }
 
+// ------------------------------------------------------------------ SPECIAL VALUES / PLUMBING / CONTEXT
+//
+// `pcsr`, `pgrid2`, `pgrid3`, `pimb` take the parameters of `lcsr`, `lgrid2`, `lgrid3`, `limb`
+// (same output, same model line) and additionally run the same data through every legal input
+// type: `view` / `&view` / `&&view` topologies, Grid by value and by reference, weights as Vec,
+// `par_iter().cloned()`, `into_par_iter().map(..)`, range-based, `with_min_len`/`with_max_len`,
+// `chain` of two halves, arrays; element types i32, u32, u64, f64, f32 where the values fit
+// exactly; f64/f32 zeros replaced by -0.0 (all of them / all but one). Every variant must give
+// the value of the i64-Vec-by-value call (which is compared with the model).
+// `cctx <csr|grid|imb> <m> <seed>`: m inputs called sequentially, on the global pool, from inside
+// a rayon task and all at once on pools of 4 and 16 threads.
+// `fimb <n> <k> <seed>`: f64 weights scaled by exact powers of two (down to subnormal, up to the
+// last finite binade).
+
+trait W16:
+    Copy
+    + Send
+    + Sync
+    + std::fmt::Debug
+    + std::iter::Sum
+    + std::ops::Mul<Output = Self>
+    + std::ops::Div<Output = Self>
+    + std::ops::Sub<Output = Self>
+    + std::ops::AddAssign
+    + PartialOrd
+    + FromPrimitive
+    + ToPrimitive
+    + Zero
+    + One
+    + 'static
+{
+    const NAME: &'static str;
+    const MAX_EXACT: i128;
+    const SIGNED: bool = true;
+    fn neg_zero() -> Option<Self> {
+        None
+    }
+}
+impl W16 for i64 {
+    const NAME: &'static str = "i64";
+    const MAX_EXACT: i128 = i64::MAX as i128;
+}
+impl W16 for i32 {
+    const NAME: &'static str = "i32";
+    const MAX_EXACT: i128 = i32::MAX as i128;
+}
+impl W16 for u32 {
+    const NAME: &'static str = "u32";
+    const MAX_EXACT: i128 = u32::MAX as i128;
+    const SIGNED: bool = false;
+}
+impl W16 for u64 {
+    const NAME: &'static str = "u64";
+    const MAX_EXACT: i128 = u64::MAX as i128;
+    const SIGNED: bool = false;
+}
+impl W16 for usize {
+    const NAME: &'static str = "usize";
+    const MAX_EXACT: i128 = usize::MAX as i128;
+    const SIGNED: bool = false;
+}
+impl W16 for f64 {
+    const NAME: &'static str = "f64";
+    const MAX_EXACT: i128 = 1 << 53;
+    fn neg_zero() -> Option<Self> {
+        Some(-0.0)
+    }
+}
+impl W16 for f32 {
+    const NAME: &'static str = "f32";
+    const MAX_EXACT: i128 = 1 << 24;
+    fn neg_zero() -> Option<Self> {
+        Some(-0.0)
+    }
+}
+
+/// `nz`: 0 keep +0, 1 every zero becomes -0.0, 2 every zero but the first one.
+fn conv_vec<T: W16>(xs: &[i64], nz: u8) -> Vec<T> {
+    let mut first = true;
+    xs.iter()
+        .map(|&x| {
+            if x == 0 && nz > 0 {
+                let skip = nz == 2 && first;
+                first = false;
+                if !skip {
+                    return T::neg_zero().unwrap();
+                }
+            }
+            T::from_i64(x).unwrap()
+        })
+        .collect()
+}
+
+/// Back to an exact integer (`None` if the value is not an integer); -0.0 is 0.
+fn back<T: W16>(x: T) -> Option<i128> {
+    let f = x.to_f64()?;
+    if f.fract() != 0.0 {
+        return None;
+    }
+    x.to_i128()
+}
+
+/// Results of all weight adaptors for one call expression.
+macro_rules! each_w {
+    ($base:expr, |$w:ident| $call:expr) => {{
+        let base = $base;
+        let n = base.len();
+        let h = n / 2;
+        let pool = &lpools()[2];
+        let mut out = vec![];
+        {
+            let $w = base.clone();
+            out.push(("Vec", guarded(|| pool.install(|| $call))));
+        }
+        {
+            let $w = base.par_iter().cloned();
+            out.push(("par_iter().cloned()", guarded(|| pool.install(|| $call))));
+        }
+        {
+            let $w = base.par_iter().copied();
+            out.push(("par_iter().copied()", guarded(|| pool.install(|| $call))));
+        }
+        {
+            let $w = base.clone().into_par_iter().map(|x| x);
+            out.push(("into_par_iter().map()", guarded(|| pool.install(|| $call))));
+        }
+        {
+            let $w = (0..n).into_par_iter().map(|i| base[i]);
+            out.push(("(0..n).into_par_iter().map()", guarded(|| pool.install(|| $call))));
+        }
+        {
+            let $w = base.par_iter().cloned().with_min_len(4096);
+            out.push(("with_min_len(4096)", guarded(|| pool.install(|| $call))));
+        }
+        {
+            let $w = base.par_iter().cloned().with_min_len(1).with_max_len(1);
+            out.push(("with_max_len(1)", guarded(|| pool.install(|| $call))));
+        }
+        {
+            let $w = base.par_iter().cloned().with_max_len(7);
+            out.push(("with_max_len(7)", guarded(|| pool.install(|| $call))));
+        }
+        {
+            let $w = base[..h].par_iter().cloned().chain(base[h..].par_iter().cloned());
+            out.push(("chain(halves)", guarded(|| pool.install(|| $call))));
+        }
+        {
+            // on the global pool, not inside `install`
+            let $w = base.clone();
+            out.push(("Vec@global-pool", guarded(|| $call)));
+        }
+        out
+    }};
+}
+
+fn check_all<T: PartialEq + std::fmt::Debug>(
+    ctx: &mut Ctx,
+    v: &mut Verdicts,
+    sig: &'static str,
+    what: &str,
+    got: Vec<(&'static str, Res<T>)>,
+    want: &Res<T>,
+) {
+    for (name, r) in got {
+        ctx.count(&format!("plumbing:{}", name));
+        if r != *want {
+            v.add(sig, format!("{} through {}: {:?}, by value with a Vec: {:?}", what, name, r, want));
+        }
+    }
+}
+
+/// Edge cut and lambda cut of the same matrix with element type `T`, through `view` and `&view`.
+fn typed_cut<T: W16>(
+    indptr: &[usize],
+    indices: &[usize],
+    data: &[i64],
+    p: &[usize],
+    ws: &[i64],
+    nz: u8,
+) -> Res<[Option<i128>; 4]> {
+    let n = indptr.len() - 1;
+    let d: Vec<T> = conv_vec(data, nz);
+    let w: Vec<T> = conv_vec(ws, nz);
+    let pool = &lpools()[1];
+    guarded(|| {
+        pool.install(|| {
+            let view: CsMatView<T> = CsMatView::new((n, n), indptr, indices, &d[..]);
+            [
+                back(<CsMatView<T> as Topology<T>>::edge_cut(&view, p)),
+                back(<&CsMatView<T> as Topology<T>>::edge_cut(&&view, p)),
+                back(<CsMatView<T> as Topology<T>>::lambda_cut(&view, p, w.clone())),
+                back(<&CsMatView<T> as Topology<T>>::lambda_cut(&&view, p, w.par_iter().cloned())),
+            ]
+        })
+    })
+}
+
+fn plumb_csr(
+    ctx: &mut Ctx,
+    v: &mut Verdicts,
+    indptr: &[usize],
+    indices: &[usize],
+    data: &[i64],
+    p: &[usize],
+    ws: &Vec<i64>,
+    base_e: &Res<i64>,
+    base_l: &Res<i64>,
+) {
+    let n = indptr.len() - 1;
+    let view: View = CsMatView::new((n, n), indptr, indices, data);
+    // topologies by value and behind one, two references
+    let e = vec![
+        ("view", guarded(|| <View as Topology<i64>>::edge_cut(&view, p))),
+        ("&view", guarded(|| <&View as Topology<i64>>::edge_cut(&&view, p))),
+        ("&&view", guarded(|| <&&View as Topology<i64>>::edge_cut(&&&view, p))),
+        ("(&view).edge_cut()", guarded(|| (&view).edge_cut(p))),
+        ("(&&view).edge_cut()", guarded(|| (&&view).edge_cut(p))),
+    ];
+    check_all(ctx, v, "input-type-dependent@edge_cut", "edge_cut", e, base_e);
+    let l = vec![
+        ("view", guarded(|| <View as Topology<i64>>::lambda_cut(&view, p, ws.clone()))),
+        ("&view", guarded(|| <&View as Topology<i64>>::lambda_cut(&&view, p, ws.clone()))),
+        ("&&view", guarded(|| <&&View as Topology<i64>>::lambda_cut(&&&view, p, ws.clone()))),
+    ];
+    check_all(ctx, v, "input-type-dependent@lambda_cut", "lambda_cut", l, base_l);
+    // weight adaptors, specialised and default method
+    let l = each_w!(ws, |w| <View as Topology<i64>>::lambda_cut(&view, p, w));
+    check_all(ctx, v, "input-type-dependent@lambda_cut", "sprs lambda_cut", l, base_l);
+    let l = each_w!(ws, |w| <&View as Topology<i64>>::lambda_cut(&&view, p, w));
+    check_all(ctx, v, "input-type-dependent@lambda_cut", "generic lambda_cut", l, base_l);
+    // element types
+    let want = match (base_e, base_l) {
+        (Ok(e), Ok(l)) => Ok([Some(*e as i128), Some(*e as i128), Some(*l as i128), Some(*l as i128)]),
+        _ => return,
+    };
+    let has_zero = data.iter().any(|&x| x == 0) || ws.iter().any(|&x| x == 0);
+    macro_rules! ty {
+        ($T:ty) => {{
+            ctx.count(&format!("plumbing:type:{}", <$T as W16>::NAME));
+            let r = typed_cut::<$T>(indptr, indices, data, p, ws, 0);
+            if r != want {
+                v.add("input-type-dependent@edge_cut/lambda_cut", format!("{} weights: {:?}, i64: {:?}", <$T as W16>::NAME, r, want));
+            }
+            if <$T as W16>::neg_zero().is_some() && has_zero {
+                for nz in [1u8, 2] {
+                    ctx.count(if nz == 1 { "special:negzero:all" } else { "special:negzero:all-but-one" });
+                    let r = typed_cut::<$T>(indptr, indices, data, p, ws, nz);
+                    if r != want {
+                        v.add("negzero-dependent@edge_cut/lambda_cut", format!("{} weights with -0.0 (mode {}): {:?}, with +0.0: {:?}", <$T as W16>::NAME, nz, r, want));
+                    }
+                }
+            }
+        }};
+    }
+    ty!(i32);
+    ty!(u32);
+    ty!(u64);
+    ty!(usize);
+    ty!(f64);
+    ty!(f32);
+}
+
+fn typed_grid<T: W16>(w: usize, h: usize, d: usize, dim: usize, p: &[usize], ws: &[i64], nz: u8) -> Res<[Option<i128>; 4]> {
+    let wv: Vec<T> = conv_vec(ws, nz);
+    let pool = &lpools()[1];
+    guarded(|| {
+        pool.install(|| {
+            if dim == 2 {
+                let g = coupe::Grid::new_2d(nz_(w), nz_(h));
+                [
+                    back(<coupe::Grid<2> as Topology<T>>::edge_cut(&g, p)),
+                    back(<&coupe::Grid<2> as Topology<T>>::edge_cut(&&g, p)),
+                    back(<coupe::Grid<2> as Topology<T>>::lambda_cut(&g, p, wv.clone())),
+                    back(<&&coupe::Grid<2> as Topology<T>>::lambda_cut(&&&g, p, wv.par_iter().cloned())),
+                ]
+            } else {
+                let g = coupe::Grid::new_3d(nz_(w), nz_(h), nz_(d));
+                [
+                    back(<coupe::Grid<3> as Topology<T>>::edge_cut(&g, p)),
+                    back(<&coupe::Grid<3> as Topology<T>>::edge_cut(&&g, p)),
+                    back(<coupe::Grid<3> as Topology<T>>::lambda_cut(&g, p, wv.clone())),
+                    back(<&&coupe::Grid<3> as Topology<T>>::lambda_cut(&&&g, p, wv.par_iter().cloned())),
+                ]
+            }
+        })
+    })
+}
+
+fn nz_(x: usize) -> NonZeroUsize {
+    NonZeroUsize::new(x).unwrap()
+}
+
+fn plumb_grid(
+    ctx: &mut Ctx,
+    v: &mut Verdicts,
+    w: usize,
+    h: usize,
+    d: usize,
+    dim: usize,
+    p: &[usize],
+    ws: &Vec<i64>,
+    base_e: &Res<i64>,
+    base_l: &Res<i64>,
+) {
+    if dim == 2 {
+        let g = coupe::Grid::new_2d(nz_(w), nz_(h));
+        let l = each_w!(ws, |x| <coupe::Grid<2> as Topology<i64>>::lambda_cut(&g, p, x));
+        check_all(ctx, v, "input-type-dependent@lambda_cut", "Grid<2> lambda_cut", l, base_l);
+        let l = each_w!(ws, |x| <&coupe::Grid<2> as Topology<i64>>::lambda_cut(&&g, p, x));
+        check_all(ctx, v, "input-type-dependent@lambda_cut", "&Grid<2> lambda_cut", l, base_l);
+        if ws.len() == 9 {
+            let arr: [i64; 9] = ws[..].try_into().unwrap();
+            let l = vec![("[i64; 9]", guarded(|| <coupe::Grid<2> as Topology<i64>>::lambda_cut(&g, p, arr)))];
+            check_all(ctx, v, "input-type-dependent@lambda_cut", "Grid<2> lambda_cut", l, base_l);
+        }
+    } else {
+        let g = coupe::Grid::new_3d(nz_(w), nz_(h), nz_(d));
+        let l = each_w!(ws, |x| <coupe::Grid<3> as Topology<i64>>::lambda_cut(&g, p, x));
+        check_all(ctx, v, "input-type-dependent@lambda_cut", "Grid<3> lambda_cut", l, base_l);
+        let l = each_w!(ws, |x| <&coupe::Grid<3> as Topology<i64>>::lambda_cut(&&g, p, x));
+        check_all(ctx, v, "input-type-dependent@lambda_cut", "&Grid<3> lambda_cut", l, base_l);
+    }
+    let want = match (base_e, base_l) {
+        (Ok(e), Ok(l)) => Ok([Some(*e as i128), Some(*e as i128), Some(*l as i128), Some(*l as i128)]),
+        _ => return,
+    };
+    let has_zero = ws.iter().any(|&x| x == 0);
+    macro_rules! ty {
+        ($T:ty) => {{
+            ctx.count(&format!("plumbing:type:{}", <$T as W16>::NAME));
+            let r = typed_grid::<$T>(w, h, d, dim, p, ws, 0);
+            if r != want {
+                v.add("input-type-dependent@edge_cut/lambda_cut", format!("Grid with {} weights: {:?}, i64: {:?}", <$T as W16>::NAME, r, want));
+            }
+            if <$T as W16>::neg_zero().is_some() && has_zero {
+                for nz in [1u8, 2] {
+                    ctx.count(if nz == 1 { "special:negzero:all" } else { "special:negzero:all-but-one" });
+                    let r = typed_grid::<$T>(w, h, d, dim, p, ws, nz);
+                    if r != want {
+                        v.add("negzero-dependent@lambda_cut", format!("Grid with {} weights with -0.0 (mode {}): {:?}, with +0.0: {:?}", <$T as W16>::NAME, nz, r, want));
+                    }
+                }
+            }
+        }};
+    }
+    ty!(i32);
+    ty!(u32);
+    ty!(u64);
+    ty!(usize);
+    ty!(f64);
+    ty!(f32);
+}
+
+/// `(loads, max_imbalance, imbalance bits with +0 for any zero, imbalance_target)`
+type ImbOut = (Vec<Option<i128>>, Option<i128>, u64, Option<i128>);
+
+fn norm_bits(x: f64) -> u64 {
+    if x == 0.0 { 0 } else { x.to_bits() }
+}
+
+fn typed_imb<T: W16>(k: usize, p: &[usize], ws: &[i64], ts: &[i64], nz: u8) -> Res<ImbOut> {
+    let w: Vec<T> = conv_vec(ws, nz);
+    let t: Vec<T> = conv_vec(ts, 0);
+    let pool = &lpools()[1];
+    guarded(|| {
+        pool.install(|| {
+            (
+                coupe::imbalance::compute_parts_load(p, k, w.clone()).into_iter().map(back).collect(),
+                back(coupe::imbalance::max_imbalance(k, p, w.par_iter().cloned())),
+                norm_bits(coupe::imbalance::imbalance(k, p, w.clone())),
+                back(coupe::imbalance::imbalance_target(&t, p, w.par_iter().cloned())),
+            )
+        })
+    })
+}
+
+fn plumb_imb(ctx: &mut Ctx, v: &mut Verdicts, k: usize, p: &[usize], ws: &Vec<i64>, ts: &[i64]) {
+    let base = typed_imb::<i64>(k, p, ws, ts, 0);
+    let Ok(b) = &base else { return };
+    // adaptors
+    let l = each_w!(ws, |w| coupe::imbalance::compute_parts_load(p, k, w).into_iter().map(back).collect::<Vec<_>>());
+    check_all(ctx, v, "input-type-dependent@compute_parts_load", "compute_parts_load", l, &Ok(b.0.clone()));
+    let l = each_w!(ws, |w| back(coupe::imbalance::max_imbalance(k, p, w)));
+    check_all(ctx, v, "input-type-dependent@max_imbalance", "max_imbalance", l, &Ok(b.1));
+    let l = each_w!(ws, |w| norm_bits(coupe::imbalance::imbalance(k, p, w)));
+    check_all(ctx, v, "input-type-dependent@imbalance", "imbalance", l, &Ok(b.2));
+    let l = each_w!(ws, |w| back(coupe::imbalance::imbalance_target(ts, p, w)));
+    check_all(ctx, v, "input-type-dependent@imbalance_target", "imbalance_target", l, &Ok(b.3));
+    // element types, where every value and every sum is exact in the type
+    let total: i128 = ws.iter().map(|&x| x as i128).sum();
+    let lo = ws.iter().cloned().min().unwrap_or(0);
+    let has_zero = ws.iter().any(|&x| x == 0);
+    macro_rules! ty {
+        ($T:ty) => {{
+            let signed = <$T as W16>::SIGNED;
+            if total < <$T as W16>::MAX_EXACT && (signed || lo >= 0) {
+                ctx.count(&format!("plumbing:type:{}", <$T as W16>::NAME));
+                // unsigned `load - target` must not underflow: targets 0 there
+                let zeros = vec![0i64; ts.len()];
+                let tt: &[i64] = if signed { ts } else { &zeros };
+                let want = if signed { base.clone() } else { typed_imb::<i64>(k, p, ws, tt, 0) };
+                let r = typed_imb::<$T>(k, p, ws, tt, 0);
+                if r != want {
+                    v.add("input-type-dependent@imbalance", format!("{} weights: {:?}, i64: {:?}", <$T as W16>::NAME, r, want));
+                }
+                if <$T as W16>::neg_zero().is_some() && has_zero {
+                    for nz in [1u8, 2] {
+                        ctx.count(if nz == 1 { "special:negzero:all" } else { "special:negzero:all-but-one" });
+                        let r = typed_imb::<$T>(k, p, ws, tt, nz);
+                        if r != want {
+                            v.add("negzero-dependent@imbalance", format!("{} weights with -0.0 (mode {}): {:?}, with +0.0: {:?}", <$T as W16>::NAME, nz, r, want));
+                        }
+                    }
+                }
+            }
+        }};
+    }
+    ty!(i32);
+    ty!(u32);
+    ty!(u64);
+    ty!(usize);
+    ty!(f64);
+    ty!(f32);
+}
+
+// ---- calling context
+
+const CTX_K: [usize; 6] = [2, 3, 64, 257, 65, 300];
+
+struct CsrIn {
+    n: usize,
+    indptr: Vec<usize>,
+    indices: Vec<usize>,
+    data: Vec<i64>,
+    rows: Vec<Vec<(usize, i64)>>,
+    sym: bool,
+    p: Vec<usize>,
+    ws: Vec<i64>,
+}
+
+fn ctx_csr_input(seed: u64, j: usize) -> CsrIn {
+    let ju = j as u64;
+    let n = 1500 + (mix(ju, 11, seed) % 3000) as usize;
+    let (gk, s, em) = (j % 2, 2 + (mix(ju, 12, seed) % 200) as usize, if j % 3 == 0 { 2 } else { 0 });
+    let off = if j % 5 == 0 { 3 } else { 0 };
+    let (pm, k, wm, sj) = (j % 6, CTX_K[j % 6], if j % 2 == 0 { 1 } else { 3 }, mix(ju, 13, seed));
+    let rows: Vec<Vec<(usize, i64)>> = (0..n).map(|i| lrow(gk, s, em, n, sj, i)).collect();
+    let mut indptr = vec![off];
+    let mut indices = vec![];
+    let mut data = vec![];
+    for r in &rows {
+        for &(u, w) in r {
+            indices.push(u);
+            data.push(w);
+        }
+        indptr.push(off + indices.len());
+    }
+    CsrIn {
+        n,
+        indptr,
+        indices,
+        data,
+        rows,
+        sym: gk == 0,
+        p: (0..n).map(|i| lpart(pm, k, n, sj, i)).collect(),
+        ws: (0..n).map(|i| lweight(wm, sj, i)).collect(),
+    }
+}
+
+fn ctx_csr_call(x: &CsrIn) -> [i64; 4] {
+    let view: View = CsMatView::new((x.n, x.n), &x.indptr[..], &x.indices[..], &x.data[..]);
+    [
+        <&View as Topology<i64>>::edge_cut(&&view, &x.p),
+        <View as Topology<i64>>::edge_cut(&view, &x.p),
+        <&View as Topology<i64>>::lambda_cut(&&view, &x.p, x.ws.clone()),
+        <View as Topology<i64>>::lambda_cut(&view, &x.p, x.ws.par_iter().cloned()),
+    ]
+}
+
+struct GridIn {
+    g: (usize, usize, usize, usize),
+    p: Vec<usize>,
+    ws: Vec<i64>,
+}
+
+fn ctx_grid_input(seed: u64, j: usize) -> GridIn {
+    let ju = j as u64;
+    let (a, b, c) = (mix(ju, 14, seed) as usize, mix(ju, 15, seed) as usize, mix(ju, 16, seed) as usize);
+    let g = if j % 2 == 0 { (2, 20 + a % 60, 20 + b % 60, 1) } else { (3, 5 + a % 12, 5 + b % 12, 5 + c % 12) };
+    let n = g.1 * g.2 * g.3;
+    let (pm, k, wm, sj) = (j % 6, CTX_K[j % 6], if j % 2 == 0 { 1 } else { 3 }, mix(ju, 13, seed));
+    GridIn { g, p: (0..n).map(|i| lpart(pm, k, n, sj, i)).collect(), ws: (0..n).map(|i| lweight(wm, sj, i)).collect() }
+}
+
+fn ctx_grid_call(x: &GridIn) -> [i64; 4] {
+    let g = if x.g.0 == 2 { G::D2(coupe::Grid::new_2d(nz(x.g.1), nz(x.g.2))) } else { G::D3(coupe::Grid::new_3d(nz(x.g.1), nz(x.g.2), nz(x.g.3))) };
+    [g.edge_cut(&x.p), g.edge_cut(&x.p), g.lambda_cut(&x.p, x.ws.clone()), g.lambda_cut(&x.p, x.ws.clone())]
+}
+
+struct ImbIn {
+    k: usize,
+    p: Vec<usize>,
+    ws: Vec<i64>,
+}
+
+fn ctx_imb_input(seed: u64, j: usize) -> ImbIn {
+    let ju = j as u64;
+    let n = 2000 + (mix(ju, 11, seed) % 5000) as usize;
+    let (k, sj) = (CTX_K[j % 6], mix(ju, 13, seed));
+    let wm = [1usize, 2, 3, 4][j % 4];
+    ImbIn { k, p: (0..n).map(|i| lpart(j % 6, k, n, sj, i)).collect(), ws: (0..n).map(|i| limb_weight(wm, n, sj, i)).collect() }
+}
+
+fn ctx_imb_call(x: &ImbIn) -> (Vec<i64>, i64, u64) {
+    (
+        coupe::imbalance::compute_parts_load(&x.p, x.k, x.ws.clone()),
+        coupe::imbalance::max_imbalance(x.k, &x.p, x.ws.par_iter().cloned()),
+        coupe::imbalance::imbalance(x.k, &x.p, x.ws.clone()).to_bits(),
+    )
+}
+
+/// The same calls sequentially (1 thread), on the global pool, from inside a rayon task and all
+/// at once on pools of 4 and 16 threads; returns the sequential results and the contexts that
+/// disagree with them.
+fn in_contexts<I: Sync, R: PartialEq + Send + Clone + std::fmt::Debug>(
+    ctx: &mut Ctx,
+    inputs: &[I],
+    call: impl Fn(&I) -> R + Sync + Send,
+) -> (Res<Vec<R>>, Vec<String>) {
+    let mut bad = vec![];
+    let seq = guarded(|| lpools()[0].install(|| inputs.iter().map(&call).collect::<Vec<R>>()));
+    let mut cmp = |name: &str, r: Res<Vec<R>>, ctx: &mut Ctx| {
+        ctx.count(&format!("context:{}", name));
+        if r != seq {
+            let which = match (&r, &seq) {
+                (Ok(a), Ok(b)) => format!("{} of {} results differ", a.iter().zip(b).filter(|(x, y)| x != y).count(), b.len()),
+                _ => format!("{:?}", r.as_ref().err()),
+            };
+            bad.push(format!("{}: {}", name, which));
+        }
+    };
+    // (a) the global pool
+    cmp("global-pool", guarded(|| inputs.iter().map(&call).collect()), ctx);
+    // (c) from inside a rayon task: both sides of a join, and a spawned scope task
+    let p4 = &pools()[1];
+    cmp(
+        "inside-join",
+        guarded(|| {
+            p4.install(|| {
+                inputs
+                    .iter()
+                    .map(|x| {
+                        let (a, b) = coupe::rayon::join(|| call(x), || call(x));
+                        assert!(a == b, "the two sides of a join disagree");
+                        a
+                    })
+                    .collect()
+            })
+        }),
+        ctx,
+    );
+    cmp(
+        "inside-scope-spawn",
+        guarded(|| {
+            let slots: Vec<std::sync::Mutex<Option<R>>> = inputs.iter().map(|_| std::sync::Mutex::new(None)).collect();
+            p4.scope(|s| {
+                for (x, slot) in inputs.iter().zip(&slots) {
+                    let call = &call;
+                    s.spawn(move |_| {
+                        *slot.lock().unwrap() = Some(call(x));
+                    });
+                }
+            });
+            slots.into_iter().map(|m| m.into_inner().unwrap().unwrap()).collect()
+        }),
+        ctx,
+    );
+    // (d) all at once
+    for (name, pool) in [("concurrent@4", &pools()[1]), ("concurrent@16", &pools()[2])] {
+        cmp(name, guarded(|| pool.install(|| inputs.par_iter().map(&call).collect())), ctx);
+    }
+    (seq, bad)
+}
+
+fn run_cctx(ctx: &mut Ctx, op: &str, t: &mut Toks) {
+    let kind = t.0.next().unwrap_or("").to_string();
+    let Some(a) = parse_nats(t, 2) else {
+        ctx.record(op.to_string(), "bad-op".into(), false);
+        return;
+    };
+    let (m, seed) = (a[0], a[1] as u64);
+    if m > 64 || !["csr", "grid", "imb"].contains(&kind.as_str()) {
+        ctx.record(op.to_string(), "bad-op".into(), false);
+        return;
+    }
+    let mut v = Verdicts(vec![]);
+    let out = match kind.as_str() {
+        "csr" => {
+            let inputs: Vec<CsrIn> = (0..m).map(|j| ctx_csr_input(seed, j)).collect();
+            let (seq, bad) = in_contexts(ctx, &inputs, ctx_csr_call);
+            for b in bad {
+                v.add("context-dependent@edge_cut/lambda_cut", b);
+            }
+            match seq {
+                Err(c) => c,
+                Ok(rs) => {
+                    for (x, r) in inputs.iter().zip(&rs) {
+                        let want_e = linear_edge_cut(&x.rows, &x.p, x.sym);
+                        let want_l = linear_lambda(&x.rows, &x.p, &x.ws);
+                        if want_e != Ok(r[0]) || want_e != Ok(r[1]) || want_l != r[2] || want_l != r[3] {
+                            v.add("context-oracle", format!("{:?} but the definitions give {:?} / {}", r, want_e, want_l));
+                        }
+                    }
+                    rs.iter().map(|r| format!("{}:{}", r[0], r[2])).collect::<Vec<_>>().join(" ")
+                }
+            }
+        }
+        "grid" => {
+            let inputs: Vec<GridIn> = (0..m).map(|j| ctx_grid_input(seed, j)).collect();
+            let (seq, bad) = in_contexts(ctx, &inputs, ctx_grid_call);
+            for b in bad {
+                v.add("context-dependent@Grid", b);
+            }
+            match seq {
+                Err(c) => c,
+                Ok(rs) => {
+                    for (x, r) in inputs.iter().zip(&rs) {
+                        let (w, h, d) = (x.g.1, x.g.2, x.g.3);
+                        let mut want_e = 0i64;
+                        let mut want_l = 0i64;
+                        let mut i = 0usize;
+                        let mut buf = vec![];
+                        for z in 0..d {
+                            for y in 0..h {
+                                for xx in 0..w {
+                                    buf.clear();
+                                    let mut nb = |j: usize, fwd: bool| {
+                                        if x.p[i] != x.p[j] {
+                                            buf.push(x.p[j]);
+                                            if fwd {
+                                                want_e += 1;
+                                            }
+                                        }
+                                    };
+                                    if xx + 1 < w { nb(i + 1, true) }
+                                    if y + 1 < h { nb(i + w, true) }
+                                    if z + 1 < d { nb(i + w * h, true) }
+                                    if xx > 0 { nb(i - 1, false) }
+                                    if y > 0 { nb(i - w, false) }
+                                    if z > 0 { nb(i - w * h, false) }
+                                    buf.sort_unstable();
+                                    buf.dedup();
+                                    want_l += x.ws[i] * buf.len() as i64;
+                                    i += 1;
+                                }
+                            }
+                        }
+                        if r[0] != want_e || r[2] != want_l {
+                            v.add("context-oracle", format!("Grid {:?}: {:?} but the definitions give {} / {}", x.g, r, want_e, want_l));
+                        }
+                    }
+                    rs.iter().map(|r| format!("{}:{}", r[0], r[2])).collect::<Vec<_>>().join(" ")
+                }
+            }
+        }
+        _ => {
+            let inputs: Vec<ImbIn> = (0..m).map(|j| ctx_imb_input(seed, j)).collect();
+            let (seq, bad) = in_contexts(ctx, &inputs, ctx_imb_call);
+            for b in bad {
+                v.add("context-dependent@imbalance", b);
+            }
+            match seq {
+                Err(c) => c,
+                Ok(rs) => {
+                    for (x, r) in inputs.iter().zip(&rs) {
+                        let mut l = vec![0i64; x.k];
+                        for (&q, &w) in x.p.iter().zip(&x.ws) {
+                            l[q] += w;
+                        }
+                        let mx = l.iter().max().unwrap() - l.iter().min().unwrap();
+                        if l != r.0 || mx != r.1 {
+                            v.add("context-oracle", format!("loads / max_imbalance {:?} but the definitions give {:?}", (&r.0, r.1), (&l, mx)));
+                        }
+                    }
+                    rs.iter().map(|r| format!("{}:{:x}", r.1, r.2)).collect::<Vec<_>>().join(" ")
+                }
+            }
+        }
+    };
+    let idx = ctx.record(op.to_string(), out, m >= 2);
+    for (sig, what) in v.0 {
+        ctx.fail(idx, sig, what);
+    }
+}
+
+// ---- f64 weights scaled by exact powers of two
+
+fn run_fimb(ctx: &mut Ctx, op: &str, t: &mut Toks) {
+    let Some(a) = parse_nats(t, 3) else {
+        ctx.record(op.to_string(), "bad-op".into(), false);
+        return;
+    };
+    let (n, k, seed) = (a[0], a[1], a[2] as u64);
+    if n == 0 || k == 0 || n > 100_000 || k > 10_000 {
+        ctx.record(op.to_string(), "bad-op".into(), false);
+        return;
+    }
+    let p: Vec<usize> = (0..n).map(|i| lpart(2, k, n, seed, i)).collect();
+    let ws: Vec<i64> = (0..n).map(|i| limb_weight(1, n, seed, i)).collect();
+    let pool = &lpools()[1];
+    let base = guarded(|| {
+        pool.install(|| {
+            (
+                coupe::imbalance::compute_parts_load(&p, k, ws.clone()),
+                coupe::imbalance::max_imbalance(k, &p, ws.clone()),
+                coupe::imbalance::imbalance(k, &p, ws.clone()),
+            )
+        })
+    });
+    let mut v = Verdicts(vec![]);
+    let out = match &base {
+        Err(c) => c.clone(),
+        Ok((loads, mx, imb)) => {
+            let total: i64 = loads.iter().sum();
+            // the last finite binade: total * 2^top is finite, twice that is not
+            let top = 1023 - (63 - (total.max(1) as u64).leading_zeros() as i32);
+            for (e, class) in [(-1000, "normal-small"), (-1022, "smallest-normal"), (512, "normal-large"), (top, "just-below-overflow"), (-1074, "subnormal")] {
+                ctx.count(&format!("special:scale:{}", class));
+                let sc = |x: i64| -> f64 {
+                    // x * 2^e exactly, in two steps to stay inside the exponent range of powi
+                    let half = e / 2;
+                    (x as f64) * 2f64.powi(half) * 2f64.powi(e - half)
+                };
+                let wf: Vec<f64> = ws.iter().map(|&x| sc(x)).collect();
+                let r = guarded(|| {
+                    pool.install(|| {
+                        (
+                            coupe::imbalance::compute_parts_load(&p, k, wf.clone()),
+                            coupe::imbalance::max_imbalance(k, &p, wf.clone()),
+                            coupe::imbalance::imbalance(k, &p, wf.par_iter().cloned()),
+                        )
+                    })
+                });
+                match r {
+                    Err(c) => v.add("special-value-panic@imbalance", format!("weights x 2^{}: {}", e, c)),
+                    Ok((lf, mf, imf)) => {
+                        let want_l: Vec<f64> = loads.iter().map(|&x| sc(x)).collect();
+                        if lf != want_l || mf != sc(*mx) {
+                            v.add("scale-dependent@compute_parts_load", format!("weights x 2^{}: loads / max_imbalance are not the scaled integers", e));
+                        }
+                        if !imf.is_finite() {
+                            v.add("special-value@imbalance", format!("weights x 2^{}: imbalance {}", e, imf));
+                        } else if class == "subnormal" {
+                            // the quotient total/K is rounded to a multiple of 2^-1074: a few ulps of a
+                            // number with few bits; only closeness can be required
+                            if total > 0 && (imf - imb).abs() > 1e-3 * (1.0 + imb.abs()) * (k as f64) {
+                                v.add("special-value@imbalance", format!("subnormal weights: imbalance {} against {}", imf, imb));
+                            }
+                        } else if norm_bits(imf) != norm_bits(*imb) {
+                            v.add("scale-dependent@imbalance", format!("weights x 2^{}: imbalance {:?}, unscaled {:?}", e, imf, imb));
+                        }
+                    }
+                }
+            }
+            // 64 subnormal weights of 1e-310 in 4 equal parts: perfectly balanced
+            ctx.count("special:subnormal:64x1e-310");
+            let p4: Vec<usize> = (0..64).map(|i| i % 4).collect();
+            match guarded(|| coupe::imbalance::imbalance(4, &p4, vec![1e-310f64; 64])) {
+                Ok(x) if x == 0.0 => {}
+                other => v.add("special-value@imbalance", format!("64 weights of 1e-310 in 4 equal parts: {:?}", other)),
+            }
+            format!("max={} imb={:x}", mx, imb.to_bits())
+        }
+    };
+    let idx = ctx.record(op.to_string(), out, k >= 2 && n >= 2);
+    for (sig, what) in v.0 {
+        ctx.fail(idx, sig, what);
+    }
+}
+
+/// Partitions whose ids collide modulo 64 inside one neighbourhood (63, 64, 65 with 0, 1, 127, …).
+fn ids_mod64_partition(ctx: &mut Ctx, n: usize) -> Vec<usize> {
+    const IDS: [usize; 12] = [0, 1, 63, 64, 65, 127, 128, 129, 191, 192, 255, 256];
+    (0..n).map(|_| IDS[ctx.rng.usize(IDS.len())]).collect()
+}
+
+fn gen_special(ctx: &mut Ctx) {
+    let quick = ctx.quick();
+    let seed = |ctx: &mut Ctx| ctx.rng.below(1 << 20);
+    // 1. ids 63 / 64 / 65 in one neighbourhood: explicit stars, random small graphs and grids
+    run_op(ctx, "csr 5 0 3 4 5 6 6 1 2 3 0 0 0 6 1 1 1 1 1 1 4 64 63 64 65 4 1 1 1 1");
+    run_op(ctx, "csr 5 0 3 4 5 6 6 1 2 3 0 0 0 6 1 1 1 1 1 1 4 0 63 64 65 4 5 1 1 1");
+    run_op(ctx, "csr 5 0 3 4 5 6 6 1 2 3 0 0 0 6 1 1 1 1 1 1 4 1 65 129 193 4 5 1 1 1");
+    for _ in 0..ctx.budget(60, 600) {
+        ctx.count("special:ids63-64-65");
+        let n = 4 + ctx.rng.usize(20);
+        let mut rows: Vec<Vec<(usize, i64)>> = vec![vec![]; n];
+        for _ in 0..3 * n {
+            let (a, b) = (ctx.rng.usize(n), ctx.rng.usize(n));
+            if a != b && !rows[a].iter().any(|e| e.0 == b) {
+                rows[a].push((b, 1));
+                rows[b].push((a, 1));
+            }
+        }
+        for r in rows.iter_mut() {
+            r.sort();
+        }
+        let p = ids_mod64_partition(ctx, n);
+        let ws = rand_weights(ctx, n);
+        let op = csr_op(&rows, 0, &p, &ws);
+        run_op(ctx, &op);
+        let (w, h) = (2 + ctx.rng.usize(5), 2 + ctx.rng.usize(5));
+        let p = ids_mod64_partition(ctx, w * h);
+        let ws = rand_weights(ctx, w * h);
+        let op = grid_op(w, h, None, &p, &ws);
+        run_op(ctx, &op);
+    }
+    // 2. plumbing: (n, kind, stride, em, off, pm, k, wm) - weights small enough for every type
+    let mut pc: Vec<[usize; 8]> = vec![[2999, 0, 50, 2, 0, 5, 300, 3], [4099, 1, 64, 2, 3, 2, 64, 3], [1, 0, 2, 0, 0, 3, 2, 1], [2, 0, 2, 2, 0, 3, 2, 3]];
+    let mut pg2: Vec<[usize; 5]> = vec![[3, 3, 5, 300, 3], [67, 61, 2, 65, 3]];
+    let mut pg3: Vec<[usize; 6]> = vec![[11, 13, 17, 5, 300, 3]];
+    // (n, k, pm, wm): wm 4 has zeros and fits every type, 2 only u64/f64, 3 (2^61/n) only u64
+    let mut pi: Vec<[usize; 4]> = vec![[5003, 64, 2, 4], [5003, 257, 5, 1], [4099, 7, 0, 2], [8193, 3, 2, 3], [2, 2, 3, 4], [3, 2, 2, 3]];
+    if !quick {
+        pc.extend([[8193, 0, 4096, 2, 0, 0, 64, 3], [5000, 1, 3, 0, 2, 1, 2, 1], [3, 0, 2, 2, 0, 3, 3, 3], [7001, 0, 2, 2, 0, 5, 300, 3]]);
+        pg2.extend([[4097, 2, 0, 2, 3], [1, 9, 3, 3, 3], [9, 1, 5, 300, 1]]);
+        pg3.extend([[2, 3, 5, 3, 4, 3], [19, 7, 23, 2, 257, 1]]);
+        pi.extend([[20001, 257, 0, 4], [16385, 63, 2, 3], [65537, 64, 2, 1], [9001, 300, 5, 2], [70001, 5, 2, 3]]);
+    }
+    for c in pc {
+        let s = seed(ctx);
+        run_op(ctx, &format!("pcsr {} {} {} {} {} {} {} {} {}", c[0], c[1], c[2], c[3], c[4], c[5], c[6], c[7], s));
+    }
+    for c in pg2 {
+        let s = seed(ctx);
+        run_op(ctx, &format!("pgrid2 {} {} {} {} {} {}", c[0], c[1], c[2], c[3], c[4], s));
+    }
+    for c in pg3 {
+        let s = seed(ctx);
+        run_op(ctx, &format!("pgrid3 {} {} {} {} {} {} {}", c[0], c[1], c[2], c[3], c[4], c[5], s));
+    }
+    for c in pi {
+        let s = seed(ctx);
+        run_op(ctx, &format!("pimb {} {} {} {} {}", c[0], c[1], c[2], c[3], s));
+    }
+    // 3. calling contexts
+    let m = if quick { 12 } else { 32 };
+    for kind in ["csr", "grid", "imb"] {
+        let s = seed(ctx);
+        run_op(ctx, &format!("cctx {} {} {}", kind, m, s));
+    }
+    // 4. f64 weights over the whole exponent range
+    for (n, k) in if quick { vec![(1021usize, 4usize), (5003, 64)] } else { vec![(1021, 4), (5003, 64), (2, 2), (20001, 257), (64, 3)] } {
+        let s = seed(ctx);
+        run_op(ctx, &format!("fimb {} {} {}", n, k, s));
+    }
+    ctx.notes.push("special/plumbing/context stream: ids 63/64/65 in one neighbourhood; pcsr/pgrid/pimb (every topology reference depth, weight adaptor and element type, -0.0); cctx (global pool, inside join/scope, 4- and 16-thread concurrent calls); fimb (f64 weights scaled to subnormal … last finite binade)".into());
+}
+
+/// Process-level state: which instantiation runs first in the process is drawn from the seed.
+fn gen_first_calls(ctx: &mut Ctx) {
+    let mut firsts: Vec<(&str, String)> = vec![
+        ("grid3", "grid3 2 3 2 12 0 1 0 1 1 0 0 1 1 0 1 0 12 1 2 3 1 2 3 1 2 3 1 2 3".to_string()),
+        ("grid2", "grid2 3 3 9 0 0 1 0 1 0 1 1 0 9 1 1 1 1 1 1 1 1 1".to_string()),
+        ("csr-i64", "csr 4 0 1 3 4 4 1 0 2 1 4 7 7 9 9 3 0 1 0 3 1 1 1".to_string()),
+        ("typed-f64-first", "pcsr 301 0 7 2 0 5 300 3 5".to_string()),
+        ("imb-i64", "imb 2 4 0 1 0 1 4 3 1 2 2 2 0 0".to_string()),
+        ("typed-imb-first", "pimb 257 3 2 4 9".to_string()),
+        ("concurrent-first", "cctx imb 8 3".to_string()),
+    ];
+    ctx.rng.shuffle(&mut firsts);
+    ctx.count(&format!("context:first-call={}", firsts[0].0));
+    for (_, op) in firsts {
+        run_op(ctx, &op);
+    }
+}
+
 pub fn run_op(ctx: &mut Ctx, op: &str) {
     if ctx.hang_limit_reached() {
         return;
@@ -1158,10 +2078,16 @@ pub fn run_op(ctx: &mut Ctx, op: &str) {
         Some("nbrs2") => run_nbrs(ctx, op, &mut t, 2),
         Some("nbrs3") => run_nbrs(ctx, op, &mut t, 3),
         Some("imb") => run_imb(ctx, op, &mut t),
-        Some("lcsr") => run_lcsr(ctx, op, &mut t),
-        Some("lgrid2") => run_lgrid(ctx, op, &mut t, 2),
-        Some("lgrid3") => run_lgrid(ctx, op, &mut t, 3),
-        Some("limb") => run_limb(ctx, op, &mut t),
+        Some("lcsr") => run_lcsr(ctx, op, &mut t, false),
+        Some("lgrid2") => run_lgrid(ctx, op, &mut t, 2, false),
+        Some("lgrid3") => run_lgrid(ctx, op, &mut t, 3, false),
+        Some("limb") => run_limb(ctx, op, &mut t, false),
+        Some("pcsr") => run_lcsr(ctx, op, &mut t, true),
+        Some("pgrid2") => run_lgrid(ctx, op, &mut t, 2, true),
+        Some("pgrid3") => run_lgrid(ctx, op, &mut t, 3, true),
+        Some("pimb") => run_limb(ctx, op, &mut t, true),
+        Some("cctx") => run_cctx(ctx, op, &mut t),
+        Some("fimb") => run_fimb(ctx, op, &mut t),
         _ => {
             ctx.record(op.to_string(), "bad-op".into(), false);
         }
@@ -1512,6 +2438,8 @@ fn exhaustive_grid(ctx: &mut Ctx, w: usize, h: usize, d: Option<usize>) -> u64 {
 }
 
 pub fn generate(ctx: &mut Ctx) {
+    // 0. which instantiation is called first in this process depends on the seed
+    gen_first_calls(ctx);
     // 1. neighbour lists, positions and indices of every small grid
     let (m2, m3) = if ctx.quick() { (12, 5) } else { (16, 7) };
     for w in 1..=m2 {
@@ -1546,6 +2474,7 @@ pub fn generate(ctx: &mut Ctx) {
     ctx.notes.push(format!("exhaustive: all 2-colourings (cell 0 fixed) of all 2-D and 3-D (depth >= 2) grids with <= {} cells: {} cases", cells, total));
     // 3. large sizes and parameter corners
     gen_large(ctx);
+    gen_special(ctx);
     // 4. random streams
     for _ in 0..ctx.budget(2500, 60000) {
         gen_csr(ctx);
